@@ -156,12 +156,16 @@ PLAN["C12"] = {"quick": [job("native", "seq", 16, 600), job("native", "conc", 16
                "exhaustive_note": "part 'seq' enumerates every operation sequence of the length given in coverage.exhaustive_len"}
 LEVEL["C13"] = "exploration"
 RULES["C13"] = ("seq: every sequence over {run, drop runnable, clone waker, wake, wake_by_ref, drop waker, cancel, drop token, poll promise, drop promise} up to the stated length on the real task "
-                "primitives vs an abstract phase machine (whether a wake enqueues a runnable, what Promise::poll returns, drop counts of future and output), plus random sequences; conc: runner, waker, "
+                "primitives vs an abstract phase machine (whether a wake enqueues a runnable, what Promise::poll returns, drop counts of future and output), plus random sequences; reent: directed and random scripts of operations "
+                "performed by the future itself inside a poll (cancel its own task, wake itself, keep or share clones of its waker, drop or poll its promise) and inside its destructor (wake, release the last waker or the promise), "
+                "interleaved with external run / drop / wake operations; end-of-history oracle: future dropped exactly once (a waker cycle without cancellation is not judged), output exactly once iff produced, no overlapping computations, "
+                "never two runnables of one task; a native crash (allocator abort, SIGSEGV) is a violation; conc: runner, waker, "
                 "canceller and promise-poller threads over shared tasks with delays at task probes; oracle: polls of one task never overlap, no poll after completion/cancellation, every wake issued "
                 "while pending is followed by a poll that begins after the wake call, future and output dropped exactly once; Miri/ASan add UB, race, leak and use-after-free detection; "
-                "non-trivial = distinct sequence (seq) / history with concurrent wakes and runs (conc)")
-PLAN["C13"] = {"quick": [job("native", "seq", 16, 600), job("native", "conc", 16, 600), miri("conc", 4, 16, 900)],
-               "thorough": [job("native", "seq", 16, 3000), job("native", "conc", 16, 3000), miri("conc", 8, 64, 3000), miri("seq", 1, 1, 3000),
+                "non-trivial = distinct sequence (seq) / script with a cancellation issued from inside a poll or the destructor (reent) / history with concurrent wakes and runs (conc)")
+PLAN["C13"] = {"quick": [job("native", "seq", 16, 600), job("native", "reent", 16, 600, crash_is_violation=True), job("native", "conc", 16, 600), miri("conc", 4, 16, 900), miri("reent", 2, 1, 900)],
+               "thorough": [job("native", "seq", 16, 3000), job("native", "reent", 16, 3000, crash_is_violation=True), job("native", "conc", 16, 3000), miri("conc", 8, 64, 3000), miri("seq", 1, 1, 3000), miri("reent", 8, 1, 3000),
+                            job("asan", "reent", 8, 1800, args=["--scale", "0.2"]),
                             job("asan", "conc", 8, 1800, args=["--scale", "0.2"]), job("asan", "seq", 8, 1800, args=["--scale", "0.2"]),
                             job("tsan", "conc", 8, 1800, args=["--scale", "0.1"])],
                "min_evaluations": {"quick": 1000, "thorough": 1000}, "assumptions": PRIMITIVE_ASSUMPTIONS,
